@@ -217,6 +217,13 @@ def check_from_data(case, ctx: Ctx):
     for r, row in enumerate(rows):
         dropped_ok = all(model.locate(axes_pairs[j], row[j], incl[j]) not in (None, -1, len(axes_pairs[j])) for j in range(d) if j not in keep)
         inside.append(dropped_ok)
+    if len(keep) == 1 and not incl[keep[0]]:
+        # 1-D construction always counts a value on the last edge (C01) while an N-D axis counts it only if
+        # its binning declares right-edge inclusion (C02): such rows are outside this comparison
+        last = axes_pairs[keep[0]][-1][1]
+        if any(row[keep[0]] == last for row in rows):
+            ctx.label("last_edge_convention_differs")
+            return
     sel = [r for r in range(len(rows)) if inside[r]]
     sub = arr[sel][:, keep] if sel else np.zeros((0, len(keep)))
     kw2 = {}
